@@ -151,8 +151,15 @@ func (r *rig) startB(gen int) error {
 	return nil
 }
 
+var caseNo atomic.Int32
+
 func newRig() (*rig, error) {
 	r := &rig{addrA: freeAddr(), addrB: freeAddr(), dead: map[string]int{}, nsent: map[string]int{}}
+	if caseNo.Add(1)%2 == 1 {
+		// a peer known by a host name spelt with capitals: an address is an opaque string to the router, the writer
+		// and the events that mention it
+		r.addrB = "LocalHost" + r.addrB[strings.LastIndex(r.addrB, ":"):]
+	}
 	r.ra = remote.New(r.addrA, remote.NewConfig())
 	a, err := actor.NewEngine(actor.NewEngineConfig().WithRemote(r.ra))
 	if err != nil {
